@@ -152,8 +152,10 @@ fn one_state(rec: &Rec, k: u64, max: u64, jitter: bool, rng: &mut Rng) -> Result
     if number - 1 < rec.fw {
         return Err(("lost-fully-written".into(), format!("n {} < fully written {}", number - 1, rec.fw)));
     }
-    let check_items = |ff: &mut ckb_freezer::FreezerFiles, upto: u64, sizes: &dyn Fn(u64) -> u64, what: &str| -> Result<(), (String, String)> {
-        for i in 1..upto {
+    // order: 0 = ascending, 1 = descending (reads must not depend on what was read before)
+    let check_items = |ff: &mut ckb_freezer::FreezerFiles, upto: u64, sizes: &dyn Fn(u64) -> u64, what: &str, order: u8| -> Result<(), (String, String)> {
+        let ids: Vec<u64> = if order == 0 { (1..upto).collect() } else { (1..upto).rev().collect() };
+        for i in ids {
             let want = pat(i, sizes(i));
             match ff.retrieve(i) {
                 Ok(Some(got)) if got == want => {}
@@ -168,7 +170,7 @@ fn one_state(rec: &Rec, k: u64, max: u64, jitter: bool, rng: &mut Rng) -> Result
     };
     let items = rec.items.clone();
     let size_of = move |i: u64| (items[i as usize - 1].end - items[i as usize - 1].start) * k;
-    check_items(&mut ff, number, &size_of, "after reopen")?;
+    check_items(&mut ff, number, &size_of, "after reopen", (rng.below(2)) as u8)?;
     for f in 0..nfiles {
         let l = flen(dir, f);
         let want = rec.exp.data[f as usize] * k;
@@ -185,30 +187,49 @@ fn one_state(rec: &Rec, k: u64, max: u64, jitter: bool, rng: &mut Rng) -> Result
         return Err(("layout".into(), "INDEX bytes differ from the model".into()));
     }
     // ---- subsequent appends / retrievals / truncate work on the prefix ----
+    // (reads of older items are interleaved with the writes: a read must never disturb a later write or read)
     let mut sizes: Vec<u64> = (1..number).map(|i| size_of(i)).collect();
-    for add in [3 * k.min(max * k / 3).max(1), k.max(1), 2 * k] {
-        let add = add.min(max * k);
+    let cap = max * k;
+    let read_one = |ff: &mut ckb_freezer::FreezerFiles, i: u64, sizes: &[u64], what: &str| -> Result<(), (String, String)> {
+        match ff.retrieve(i) {
+            Ok(Some(got)) if got == pat(i, sizes[i as usize - 1]) => Ok(()),
+            Ok(other) => Err(("retrieve".into(), format!("{what}: item {i} = {:?}", other.map(|v| v.len())))),
+            Err(e) => Err(("retrieve".into(), format!("{what}: item {i} error {e}"))),
+        }
+    };
+    for (n, add) in [k.max(1), k.max(1), 3 * k.min(cap / 3).max(1), 2 * k].into_iter().enumerate() {
+        let add = add.min(cap);
         let no = ff.number();
+        if no > 1 {
+            // read an older item right before the append: the one before the last (it shares the head file with
+            // the last one whenever the head file holds two items), or a random one
+            let i = if no > 2 && rng.chance(2, 3) { no - 2 } else { 1 + rng.below(no - 1) };
+            read_one(&mut ff, i, &sizes, "read before append")?;
+        }
         ff.append(no, &pat(no, add)).map_err(|e| ("continuation".to_string(), format!("append {e}")))?;
         sizes.push(add);
         let sz = sizes.clone();
-        check_items(&mut ff, no + 1, &move |i| sz[i as usize - 1], "after append")?;
+        check_items(&mut ff, no + 1, &move |i| sz[i as usize - 1], "after append", (n % 2) as u8)?;
     }
     ff.sync_all().map_err(|e| ("continuation".to_string(), format!("sync {e}")))?;
-    let keep = 1 + rng.below(ff.number() - 2);
+    let m = ff.number() - 1;
+    read_one(&mut ff, m, &sizes, "last item before truncate")?;
+    let keep = 1 + rng.below(m - 1);
     ff.truncate(keep).map_err(|e| ("continuation".to_string(), format!("truncate {e}")))?;
-    if keep + 1 < sizes.len() as u64 + 1 && ff.number() != keep + 1 {
+    if ff.number() != keep + 1 {
         return Err(("continuation".into(), format!("number {} after truncate({keep})", ff.number())));
     }
-    sizes.truncate((ff.number() - 1) as usize);
+    sizes.truncate(keep as usize);
+    // re-append items keep+1 ..= m+1 with sizes that differ from the discarded ones, without reading in between
+    for no in (keep + 1)..=(m + 1) {
+        let add = 1 + (no * 7 + keep * 3 + rng.below(5)) % cap;
+        ff.append(no, &pat(no, add)).map_err(|e| ("continuation".to_string(), format!("append after truncate {e}")))?;
+        sizes.push(add);
+    }
+    read_one(&mut ff, m + 1, &sizes, "first read after truncate+append")?;
     let sz = sizes.clone();
-    let nn = ff.number();
-    check_items(&mut ff, nn, &move |i| sz[i as usize - 1], "after truncate")?;
-    let no = ff.number();
-    ff.append(no, &pat(no, 2 * k)).map_err(|e| ("continuation".to_string(), format!("append after truncate {e}")))?;
-    sizes.push(2 * k);
-    let sz = sizes.clone();
-    check_items(&mut ff, no + 1, &move |i| sz[i as usize - 1], "after truncate+append")?;
+    check_items(&mut ff, m + 2, &move |i| sz[i as usize - 1], "after truncate+append", 1)?;
+    let no = m + 1;
     drop(ff);
     // clean re-open keeps everything
     let mut ff = FreezerFilesBuilder::new(dir.to_path_buf()).max_file_size(max * k).enable_compression(false).build()
@@ -217,7 +238,7 @@ fn one_state(rec: &Rec, k: u64, max: u64, jitter: bool, rng: &mut Rng) -> Result
         return Err(("continuation".into(), format!("clean reopen number {} expected {}", ff.number(), no + 1)));
     }
     let sz = sizes.clone();
-    check_items(&mut ff, no + 1, &move |i| sz[i as usize - 1], "after clean reopen")?;
+    check_items(&mut ff, no + 1, &move |i| sz[i as usize - 1], "after clean reopen", 0)?;
     Ok(())
 }
 
@@ -230,7 +251,7 @@ struct Obs {
     hid: u64,
     hlen: u64,
     idx: u64,
-    good: u64,
+    good: i64,
     beyond: bool,
 }
 
@@ -246,17 +267,22 @@ fn head_of(dir: &Path) -> (u64, u64) {
     (f, flen(dir, f))
 }
 
-fn observe(ff: &mut ckb_freezer::FreezerFiles, dir: &Path, payloads: &[Vec<u8>]) -> Obs {
+/// `mode`: 0 = no reads at all (good = -1), 1 = read every item ascending, 2 = descending
+fn observe(ff: &mut ckb_freezer::FreezerFiles, dir: &Path, payloads: &[Vec<u8>], mode: u64) -> Obs {
     let number = ff.number();
-    let mut good = 0;
-    for i in 1..number {
-        if let Ok(Some(v)) = ff.retrieve(i) {
-            if payloads.get(i as usize - 1).map(|p| *p == v).unwrap_or(false) {
-                good += 1;
+    let mut good: i64 = if mode == 0 { -1 } else { 0 };
+    let mut beyond = false;
+    if mode != 0 {
+        let ids: Vec<u64> = if mode == 1 { (1..number).collect() } else { (1..number).rev().collect() };
+        for i in ids {
+            if let Ok(Some(v)) = ff.retrieve(i) {
+                if payloads.get(i as usize - 1).map(|p| *p == v).unwrap_or(false) {
+                    good += 1;
+                }
             }
         }
+        beyond = !matches!(ff.retrieve(number), Ok(None));
     }
-    let beyond = !matches!(ff.retrieve(number), Ok(None));
     let (hid, hlen) = head_of(dir);
     let idx = fs::metadata(dir.join("INDEX")).map(|m| m.len()).unwrap_or(0) / 12;
     Obs { number, hid, hlen, idx, good, beyond }
@@ -296,8 +322,16 @@ fn drive(args: &[String]) {
         let mut hist_appends = 0;
         for _ in 0..steps {
             let Some(f) = ff.as_mut() else { break };
-            let choice = rng.below(100);
-            if choice < 55 {
+            let choice = rng.below(110);
+            if choice >= 100 {
+                // a single read of a random item (or one beyond the prefix); reads have no effect on the state
+                let n = f.number();
+                let i = rng.range(1, n);
+                let r = f.retrieve(i);
+                let ok = matches!(&r, Ok(Some(v)) if payloads.get(i as usize - 1).map(|p| p == v).unwrap_or(false));
+                let none = matches!(&r, Ok(None));
+                writeln!(w, "{}", json!({"ev": "Retrieve", "i": i, "ok": ok, "none": none})).unwrap();
+            } else if choice < 55 {
                 let len = if rng.chance(1, 6) { rng.range(max * 2 / 3, max) } else { rng.range(1, max / 2) } as usize;
                 let p: Vec<u8> = if compress && rng.chance(1, 2) {
                     // compressible payload
@@ -310,7 +344,7 @@ fn drive(args: &[String]) {
                 match f.append(no, &p) {
                     Ok(()) => {
                         payloads.push(p);
-                        let o = observe(f, &dir, &payloads);
+                        let o = observe(f, &dir, &payloads, rng.below(4).min(2));
                         let sz = if o.hid == ohid { o.hlen - ohlen } else { rolls += 1; o.hlen };
                         ev(&mut w, "Append", json!({"sz": sz}), &o);
                         appends += 1;
@@ -322,7 +356,7 @@ fn drive(args: &[String]) {
                 }
             } else if choice < 65 {
                 f.sync_all().unwrap();
-                let o = observe(f, &dir, &payloads);
+                let o = observe(f, &dir, &payloads, rng.below(4).min(2));
                 (s_idx, s_head, s_len) = (o.idx, o.hid, o.hlen);
                 ev(&mut w, "Sync", json!({}), &o);
             } else if choice < 75 {
@@ -332,7 +366,7 @@ fn drive(args: &[String]) {
                     match f.truncate(k) {
                         Ok(()) => {
                             payloads.truncate(k as usize);
-                            let o = observe(f, &dir, &payloads);
+                            let o = observe(f, &dir, &payloads, rng.below(4).min(2));
                             s_idx = s_idx.min(o.idx);
                             if s_head == o.hid { s_len = s_len.min(o.hlen) } else { s_head = o.hid; s_len = o.hlen }
                             ev(&mut w, "Truncate", json!({"k": k}), &o);
@@ -364,7 +398,7 @@ fn drive(args: &[String]) {
                     Ok(Ok(mut nf)) => {
                         let _ = nf.preopen();
                         payloads.truncate((nf.number() - 1) as usize);
-                        let o = observe(&mut nf, &dir, &payloads);
+                        let o = observe(&mut nf, &dir, &payloads, rng.below(3));
                         (s_idx, s_head, s_len) = (o.idx, o.hid, o.hlen);
                         ev(&mut w, "Reopen", json!({}), &o);
                         ff = Some(nf);
